@@ -1329,7 +1329,7 @@ mod expression_parser {
                 body: Box::new(body),
               });
             } else {
-              let tuple_elements = parameters_or_tuple_elements_cover
+              let mut tuple_elements = parameters_or_tuple_elements_cover
                 .into_iter()
                 .map(|name| {
                   expr::E::LocalId(
@@ -1343,6 +1343,21 @@ mod expression_parser {
                 })
                 .collect_vec();
               let loc = peeked_loc.union(&right_parenthesis_loc);
+              if let Some(node) = tuple_elements.get(MAX_STRUCT_SIZE) {
+                parser.error_set.report_invalid_syntax_error(
+                  node.loc(),
+                  format!("Maximum allowed tuple size is {MAX_STRUCT_SIZE}"),
+                );
+              }
+              tuple_elements.truncate(MAX_STRUCT_SIZE);
+              if tuple_elements.len() == 1 {
+                // `(a,)`: there is no one-element tuple.
+                parser.error_set.report_invalid_syntax_error(
+                  loc,
+                  "A tuple needs at least two elements".to_string(),
+                );
+                return tuple_elements.pop().unwrap();
+              }
               return expr::E::Tuple(
                 expr::ExpressionCommon {
                   loc,
@@ -1632,7 +1647,13 @@ mod expression_parser {
     expressions.truncate(MAX_STRUCT_SIZE);
     let (end_loc, end_comments) = parser.assert_and_consume_operator(TokenOp::RightParenthesis);
     let loc = start_loc.union(&end_loc);
-    debug_assert!(expressions.len() > 1);
+    if expressions.len() == 1 {
+      // `(e,)`: there is no one-element tuple.
+      parser
+        .error_set
+        .report_invalid_syntax_error(loc, "A tuple needs at least two elements".to_string());
+      return expressions.pop().unwrap();
+    }
     expr::E::Tuple(
       expr::ExpressionCommon { loc, associated_comments: NO_COMMENT_REFERENCE, type_: () },
       expr::ParenthesizedExpressionList {
